@@ -103,10 +103,12 @@ def lCanAdvance (s : LSt) (n : Nat) (dt : Nat) : Bool :=
   decide (dt > 0) && (List.range n).all fun i => (s.inst i).timers.all fun t => decide (s.now + dt ≤ t.2)
 
 /-- the store grants a lease on `p` iff nobody holds one or the last one has run out -/
-def storeFree (s : LSt) (p : Nat) : Bool :=
-  match s.store p with
+def freeAt (e : Option (Nat × Nat)) (now : Nat) : Bool :=
+  match e with
   | none => true
-  | some (_, u) => decide (u ≤ s.now)
+  | some (_, u) => decide (u ≤ now)
+
+def storeFree (s : LSt) (p : Nat) : Bool := freeAt (s.store p) s.now
 
 /-- the instance after a grant has been reported in time: partition marked held, expiry timer started -/
 def afterGrant (x : LInst) (cl : LCall) (lease : Nat) : LInst :=
@@ -123,7 +125,9 @@ def lstepCore (n : Nat) (s : LSt) : LLabel → Option LSt
   | .start i ok =>
     let x := s.inst i
     if x.phase == .uninit && x.alive then
-      if ok then some { s with inst := updI s.inst i { x with phase := .started, loopOn := true, needProvision := true } }
+      -- v1 refuses a configuration of more than 500 partitions (Provision returns an error)
+      if ok && !(x.gen == .v1 && decide (ceilDivN x.shared x.factor > maxPartitions)) then
+        some { s with inst := updI s.inst i { x with phase := .started, loopOn := true, needProvision := true } }
       else some s     -- a provisioning failure reported to the caller leaves the resource not started
     else none
   | .giveMe i v =>
